@@ -749,10 +749,16 @@ func (lf *lenFacts) memOnePerIteration(al *ssa.Alloc) (ssa.Value, *ssa.BasicBloc
 			}
 		}
 	}
-	if len(inits) != 1 || len(ev) == 0 {
+	if len(inits) > 1 || len(ev) == 0 {
 		return nil, nil, false
 	}
-	switch iv := inits[0].Val.(type) {
+	// `var xs []T` captured by a closure: the variable starts as the nil slice, no store
+	initBlock := al.Block()
+	var initVal ssa.Value = ssa.NewConst(nil, derefT(al.Type()))
+	if len(inits) == 1 {
+		initBlock, initVal = inits[0].Block(), inits[0].Val
+	}
+	switch iv := initVal.(type) {
 	case *ssa.Const:
 		if !iv.IsNil() {
 			return nil, nil, false
@@ -790,7 +796,7 @@ func (lf *lenFacts) memOnePerIteration(al *ssa.Alloc) (ssa.Value, *ssa.BasicBloc
 				all = false
 			}
 		}
-		if !all || l.contains(inits[0].Block()) || !inits[0].Block().Dominates(l.head) || len(l.done.Preds) != 1 {
+		if !all || l.contains(initBlock) || !initBlock.Dominates(l.head) || len(l.done.Preds) != 1 {
 			continue
 		}
 		// no exit from the body rejoins the code after the loop
